@@ -807,6 +807,10 @@ where
 				slate.id
 			)));
 		}
+		// a cancelled send stays cancelled, it is not reserved again
+		if t.tx_type == TxLogEntryType::TxSentCancelled {
+			return Err(Error::TransactionWasCancelled(slate.id.to_string()));
+		}
 	}
 
 	let mut sl = slate.clone();
